@@ -395,7 +395,7 @@ int main(int argc, char** argv) {
   vh::Ctx ctx = vh::parse_args(argc, argv);
   MODE = ctx.mode;
   if (MODE != "c14" && MODE != "c15") { fprintf(stderr, "need --mode c14|c15\n"); return 2; }
-  vh::cpu_budget(3600);
+  vh::st().case_budget = 300;   // CPU seconds per case (set_case re-arms it): a std::regex blow-up or a non-terminating call ends the worker
   if (!ctx.replay.empty()) { for (auto& c : vh::read_cases(ctx.replay)) check(c); vh::klass(1); vh::klass(2); vh::finish(); return 0; }
   if (ctx.worker == 0) for (auto& c : vh::read_cases(ctx.extra)) check(c);
   auto rows = vh::read_tsv(vh::data_dir() + "/urltestdata.tsv");
